@@ -32,6 +32,7 @@ import PercevalModel.Lemmas.C06Trim
 import PercevalModel.Lemmas.C06Coeff
 import PercevalModel.Lemmas.C06Cat
 import PercevalModel.Lemmas.C06Loss
+import PercevalModel.Lemmas.C06More
 import PercevalModel.Model.C06Proc
 
 namespace PM.C06
@@ -534,6 +535,17 @@ theorem prob_table_eq_counts {P : Params} (hP : P.WF) (n : ℕ) :
     simp
   · rw [mass_iid, catDist_mass, one_pow]
 
+/-- The filtered table is the CONDITIONAL law of the categorical counts: `phys_perf` is the probability that
+the `n` independent categorical draws deliver at least `f` photons, and every entry of the table returned
+for a filter `f ≠ 0` satisfies the filter and is the probability of its event divided by that probability. -/
+theorem prob_table_filtered_eq_counts (P : Params) (n f : ℕ) :
+    physPerf P n f =
+      massP (fun l => decide (f ≤ evPhotons (catCounts l))) (iid (catDist P) n) ∧
+    (f ≠ 0 → ∀ e ∈ table P n f, f ≤ evPhotons e.1 ∧
+      e.2 = massP (fun l => decide (catCounts l = e.1)) (iid (catDist P) n) /
+        massP (fun l => decide (f ≤ evPhotons (catCounts l))) (iid (catDist P) n)) :=
+  ⟨physPerf_eq_cat P n f, table_filtered_entry P n f⟩
+
 /-- … and these categorical draws are the per-photon structure of the generated mixture (`dist_tensor`):
 with the tags `_events_to_samples` attaches to an event (signal photon common with probability `r`, extra
 photon fresh or common according to the model; `catTag P`) `N = Σ nᵢ` independent categorical draws give
@@ -669,6 +681,7 @@ example : ∀ y : ℚ, E (fun m : Mode => (fun _ => (1 : ℚ)) m * y ^ m.length)
   intro y
   simp only [one_mul, cnt_onePhoton exP_WF, poly, E_cons, E_nil]
   ring
+-- hypothesis `f ≠ 0` of `prob_table_filtered_eq_counts`: see `physPerf exP 2 1 ≠ 0 ∧ 1 ≠ 0` above
 -- hypothesis `hF` of `modes_independent_pmf`: the photon count of a mode is such an observable
 example : ∀ n t c, massP (fun m : Mode => decide (m.length = c)) (probDist exP 0 n t) =
     countCoeff (p0 exP) (pi1 exP) (pi2 exP) n c := fun n t c => probDist_count_point exP_WF n t c
